@@ -17,6 +17,8 @@ func init() {
 		ruleDef{"C03.R6", c03r6},
 		ruleDef{"C03.R7", func(r *R) { injectedValueProvenance(r, "C03.R7") }},
 		ruleDef{"C05.R1", c05r1}, ruleDef{"C05.R4", c05r4},
+		// the record a fingerprint is rendered from is this connection's own, freshly allocated one
+		ruleDef{"C06.R1", c06r1},
 	)
 }
 
